@@ -359,6 +359,124 @@ def layout(ctx: Any) -> List[Ob]:
     return obs
 
 
+@rule('C01.PRIMS', 'D', expect_min=6)
+def prims(ctx: Any) -> List[Ob]:
+    """The read / write primitives consume and produce exactly what they say: a raw
+    read returns data[offset : offset + n] and advances by n; a character-string
+    read takes one length byte, advances 1, returns the next `length` bytes and
+    advances by `length`; the character-string writer emits the length byte then
+    the bytes; the section loops run exactly as many times as the header counts."""
+    R = 'C01.PRIMS'
+    prog = ctx.prog
+    obs: List[Ob] = []
+    inc = prog.cls(INC)
+
+    def analyse_reader(f: FuncInfo) -> Tuple[List[Tuple[str, str]], List[str]]:
+        """Symbolic walk of a straight-line reader: the offset is tracked as OFF0 + advance; every
+        slice / byte read is reported relative to OFF0, every change of self.offset as an advance."""
+        me = f.params[0]
+        adv = lf.p_const(0)  # current offset = OFF + adv   (OFF = value on entry)
+        slices: List[Tuple[str, str]] = []
+        advs: List[str] = []
+        env: Dict[str, Any] = {}
+
+        def sym(x: ast.AST) -> Optional[str]:
+            if self_attr(x, me) == 'offset':
+                return 'CUR'
+            if isinstance(x, ast.Name):
+                return x.id
+            return None
+
+        def P(e: ast.AST) -> Any:
+            p_ = lf.poly(prog, f.module, e, sym, env)
+            c = p_.get((('CUR', 1),), 0)
+            if c:
+                p_ = dict(p_)
+                del p_[(('CUR', 1),)]
+                p_ = lf.p_add(lf.p_add(p_, lf.p_scale(lf.p_sym('OFF'), c)), lf.p_scale(adv, c))
+            return p_
+
+        def scan(e: ast.AST, target: Optional[str]) -> None:
+            for sub in ast.walk(e):
+                if isinstance(sub, ast.Subscript) and isinstance(sub.slice, ast.Slice) and sub.slice.lower is not None and sub.slice.upper is not None:
+                    lo, hi = P(sub.slice.lower), P(sub.slice.upper)
+                    slices.append((lf.p_str(lf.p_add(lo, lf.p_sym('OFF'), -1)), lf.p_str(lf.p_add(hi, lo, -1))))
+                elif isinstance(sub, ast.Subscript) and not isinstance(sub.slice, ast.Slice) and target is not None:
+                    idx = P(sub.slice)
+                    slices.append(('byte@' + lf.p_str(lf.p_add(idx, lf.p_sym('OFF'), -1)), target))
+
+        for st in f.node.body:
+            if isinstance(st, ast.Assign) and self_attr(st.targets[0], me) == 'offset':
+                new_off = P(st.value)
+                d = lf.p_add(lf.p_add(new_off, lf.p_sym('OFF'), -1), adv, -1)
+                adv = lf.p_add(new_off, lf.p_sym('OFF'), -1)
+                advs.append(lf.p_str(d))
+            elif isinstance(st, ast.AugAssign) and self_attr(st.target, me) == 'offset' and isinstance(st.op, ast.Add):
+                d = P(st.value)
+                adv = lf.p_add(adv, d)
+                advs.append(lf.p_str(d))
+            elif isinstance(st, ast.Assign) and isinstance(st.targets[0], ast.Name):
+                scan(st.value, st.targets[0].id)
+                try:
+                    env[st.targets[0].id] = P(st.value)
+                except lf.NotLinear:
+                    pass
+            elif isinstance(st, ast.Return) and st.value is not None:
+                scan(st.value, None)
+        return slices, advs
+
+    rs = inc.methods['_read_string']
+    n = rs.params[1]
+    try:
+        sl, ad = analyse_reader(rs)
+        ok = sl == [('0', n)] and ad == [n]
+        why = f'slices {sl} advances {ad}'
+    except lf.NotLinear as e:
+        ok, why = False, str(e)
+    obs.append(ob(R, rs, 'info = self.data[self.offset : self.offset + length]; self.offset += length', 'a raw read returns exactly the next n bytes and advances by n', ok, why))
+    rc = inc.methods['_read_character_string']
+    try:
+        sl, ad = analyse_reader(rc)
+        lenv = sl[0][1] if sl and sl[0][0] == 'byte@0' else '?'
+        ok = len(sl) == 2 and sl[0][0] == 'byte@0' and sl[1] == ('1', lenv) and ad == ['1', lenv]
+        why = f'reads {sl} advances {ad}'
+    except lf.NotLinear as e:
+        ok, why = False, str(e)
+    obs.append(ob(R, rc, 'length = view[offset]; offset += 1; data[offset : offset + length]; offset += length', 'a character string is one length byte followed by exactly that many bytes', ok, why))
+    out = prog.cls(OUT)
+    wc = out.methods['write_character_string']
+    v = wc.params[1]
+    calls = [(call_name(c), norm(c.args[0])) for c in walk_local_ordered(wc.node) if isinstance(c, ast.Call) and call_name(c) in ('_write_byte', 'write_string')]
+    lenv = [st.targets[0].id for st in walk_local_ordered(wc.node) if isinstance(st, ast.Assign) and norm(st.value) == f'len({v})']
+    obs.append(ob(R, wc, 'self._write_byte(length); self.write_string(value)', 'a character string is written as its length byte followed by its bytes', len(lenv) == 1 and calls == [('_write_byte', lenv[0]), ('write_string', v)]))
+    # section loops run header-count times
+    rq = inc.methods['_read_questions']
+    loops = [x for x in walk_local_ordered(rq.node) if isinstance(x, ast.For)]
+    okq = len(loops) == 1 and isinstance(loops[0].iter, ast.Call) and norm(loops[0].iter.func) == 'range' and len(loops[0].iter.args) == 1 and self_attr(loops[0].iter.args[0], rq.params[0]) == '_num_questions'
+    obs.append(ob(R, rq, 'for _ in range(self._num_questions)', 'exactly QDCOUNT questions are read', okq))
+    ro = inc.methods['_read_others']
+    loops = [x for x in walk_local_ordered(ro.node) if isinstance(x, ast.For)]
+    oko = False
+    if len(loops) == 1 and isinstance(loops[0].iter, ast.Call) and norm(loops[0].iter.func) == 'range' and len(loops[0].iter.args) == 1:
+        from .common import expand
+
+        e = expand(ro, loops[0].iter.args[0])
+        try:
+            p_ = lf.poly(prog, ro.module, e, lambda x: self_attr(x, ro.params[0]))
+            oko = p_ == lf.parse_poly('_num_answers + _num_authorities + _num_additionals')
+        except lf.NotLinear:
+            pass
+    obs.append(ob(R, ro, 'for _ in range(self._num_answers + self._num_authorities + self._num_additionals)', 'exactly ANCOUNT + NSCOUNT + ARCOUNT records are read', oko))
+    ip = inc.methods['_initial_parse']
+    seq = [call_name(c) for c in walk_local_ordered(ip.node) if isinstance(c, ast.Call) and call_name(c).startswith('_read_')]
+    obs.append(ob(R, ip, f'{seq}', 'header, then questions, then (for responses) the record sections', seq == ['_read_header', '_read_questions', '_read_others']))
+    # the decoded name: labels joined by dots with a trailing dot; name cache keyed by the start offset
+    rn = inc.methods['_read_name']
+    joined = [st for st in walk_local_ordered(rn.node) if isinstance(st, ast.Assign) and isinstance(st.value, ast.BinOp) and isinstance(st.value.op, ast.Add) and isinstance(st.value.left, ast.Call) and call_name(st.value.left) == 'join' and norm(st.value.left.func.value) == "'.'" and norm(st.value.right) == "'.'"]
+    obs.append(ob(R, rn, "name = '.'.join(labels) + '.'", 'a decoded name is its labels joined by dots plus the root dot', len(joined) == 1))
+    return obs
+
+
 @rule('C01.LABEL', 'D', expect_min=5)
 def label(ctx: Any) -> List[Ob]:
     """Label-length domain agreement: the encoder rejects labels above 63 bytes
@@ -591,10 +709,10 @@ def nsecbits(ctx: Any) -> List[Ob]:
 EXPLANATION = (
     'C01.LAYOUT (necessary condition): a wire-grammar extractor turns every record writer, every decoder arm (mapped through the '
     'constructor signature) and the header/question/RR framing into sequences of wire tokens bound to fields and compares all three '
-    'with a frozen RFC 1035/2782/3596/4034 table. C01.LABEL (decided): label-length and pointer-tag domain agreement between encoder '
+    'with a frozen RFC 1035/2782/3596/4034 table. C01.PRIMS (decided): read/write primitives consume/produce exactly the bytes they return (offset arithmetic as linear forms); section loops run header-count times. C01.LABEL (decided): label-length and pointer-tag domain agreement between encoder '
     'and decoder as folded constants. C01.ROLLBACK (necessary): fields mutated per entry are discovered from the call closure and must '
     'be restored on rollback and reset per packet. C01.FLUSHBIT (decided): decision table of the class-bit writer. C01.NSECBITS '
     '(necessary): bit numbering of the NSEC bitmap on both sides. Not decided: round-trip equality of values, compression-offset '
     'arithmetic and packet split positions [X].'
 )
-RULES = [layout, label, rollback, flushbit, nsecbits]
+RULES = [layout, prims, label, rollback, flushbit, nsecbits]
